@@ -152,6 +152,15 @@ reg("C01", "history + executable model: tuples returned by the real jitted env.s
     "Trusts the components evaluated separately (deterministic envs) and per-env initial-support predicates (Gaussian reset noise bounded at 6 sigma); "
     "natural endings of MountainCar/Acrobot come from planted near-goal states.")
 
+reg("C17", "differential monitor against the reference implementation: Gymnasium 1.3.0 classic-control envs driven to the same state; for MuJoCo model identity, Gymnasium's own step() computing obs/reward/terminated/info from lerax's simulation data (and the reverse), and the C engine on contact-free steps",
+    "Held on every state explored: classic control - vector field, state limits (incl. the left wall), reward (incl. the goal step), termination and initial "
+    "range of CartPole, MountainCar, ContinuousMountainCar and Acrobot equal Gymnasium's over the whole state box, and CartPole+Euler reproduces Gymnasium "
+    "step for step; MuJoCo (4 light envs quick, all 11 thorough, constructor options toggled) - 484 model arrays identical, reset observations equal, "
+    "Gymnasium's unmodified step() fed with lerax's data reproduces lerax's observation/reward/termination/reward components to 1e-4 (and lerax's formulas "
+    "on the C engine's data reproduce Gymnasium's), contact-free one-step dynamics agree to 1e-3, cfrc_ext is populated on contact steps.",
+    "Trusts Gymnasium 1.3.0 and the MuJoCo 3.13 C engine as reference; steps with contacts are compared structurally only (MJX and the C engine are "
+    "different solvers); float32/float64 threshold ties excluded and counted; ContinuousMountainCar actions taken inside the action space.")
+
 
 def main():
     props = [json.loads(l) for l in (ROOT / "properties.jsonl").read_text().splitlines() if l.strip()]
